@@ -439,4 +439,8 @@ def Store.iter (s : Store) (a b : Nat) : R (List Nat) := do
     let mid := (s.blocks.drop (ba.idx + 1)).take (bb.idx - (ba.idx + 1))
     pure ((ba.toks.drop ja ++ mid.flatMap (·.toks) ++ bb.toks.take (jb + 1)).map (·.id))
 
+/-- `Token._update_raw_text(value)` for a token that is in no store (`store_handle is None`): only the
+token's own `_raw_text` and `size` change; the size is always the size of the new text. -/
+def Tok.updateFree (t : Tok) (text : List Char) : Tok := { t with text := text, size := tokSize text }
+
 end Autobean
